@@ -1,8 +1,9 @@
 #!/bin/bash
-# copies the repository's compiled contract bindings into the harness (package hub2) at build time
+# copies the repository's compiled contract bindings (solidity/contracts/*.go) into a harness as package hub2, at build time
 set -e
-cd "$(dirname "$0")"
+cd "$(dirname "$0")/$1"
 REPO=${VERIF_REPO:-/repo}
+mkdir -p hub2
 for f in Hub2.go CosmosERC20.go; do
   sed -e 's/^package .*/package hub2/' "$REPO/solidity/contracts/$f" > hub2/$f
 done
